@@ -104,6 +104,17 @@ func TestC12(t *testing.T) {
 				Kinds: kinds, Keys: keys, NOps: 10 + e.Rng.Intn(140), TTLs: []int64{0, 0, h, -h, 3 * h},
 				Sleeps: []int64{1, 1, 7, int64(time.Second), int64(time.Minute), 2 * h},
 			}
+			if conf.Strategy != 0 && conf.CountLimit > 0 && i%2 == 0 {
+				// recency / frequency decided by accesses a few milliseconds apart on a pool barely over the limit:
+				// every entry is read again and again between cleanups
+				g.Kinds = []string{"write", "read", "read", "read", "read", "read", "cleanup"}
+				g.Sleeps = []int64{int64(time.Millisecond), 5 * int64(time.Millisecond), 100 * int64(time.Millisecond), 300 * int64(time.Millisecond)}
+				g.Keys = keys[:int(conf.CountLimit)+2]
+				g.TTLs = []int64{0, 3 * h}
+
+				cf.Count("dense_access", 1)
+			}
+
 			r := RunBackendOps(t, e.Rng, fl, conf, g)
 			nontriv := false
 
